@@ -75,6 +75,7 @@ func cmdCheck(args []string) {
 	only := fs.String("only", "", "run only configurations whose name contains this")
 	workers := fs.Int("workers", 16, "workers")
 	noEvidence := fs.Bool("no-evidence", false, "do not write the evidence file")
+	listOnly := fs.Bool("list", false, "list the configuration names of the tier and exit")
 	fs.Parse(args)
 	if fs.NArg() < 1 {
 		fmt.Fprintln(os.Stderr, "usage: gosym check [flags] <property>")
@@ -128,6 +129,14 @@ func cmdCheck(args []string) {
 			}
 			cfgs = append(cfgs, c)
 		}
+	}
+	if *listOnly {
+		for _, c := range cfgs {
+			if *only == "" || strings.Contains(c.Name, *only) {
+				fmt.Println(c.Name)
+			}
+		}
+		os.Exit(0)
 	}
 	if len(outsideThorough) > 0 {
 		spec.Outside = append(spec.Outside, "thorough-tier configurations that exceeded the time budget on the unchanged tree and are not run: "+strings.Join(outsideThorough, ", "))
